@@ -14,6 +14,7 @@ package rruntime
 // controller cannot reach (it keeps the one it passed in), holding exactly the accepted inputs.
 //@ func (*Adapter).UpdateInputs
 //@   props C08
+//@   modifies dbWrites, adapter.StateAdapter.Inputs, elems(deps)
 //@   requires [wired] adapter != nil && adapter.depDB != nil && adapter.watchFunc != nil
 //@   ensures [declared-inputs-are-a-private-snapshot] result == nil ==> len(adapter.Inputs) == len(deps) && (len(deps) > 0 ==> fresh(adapter.Inputs)) &&
 //@     (forall k int :: 0 <= k && k < len(deps) ==> adapter.Inputs[k] == deps[k])
@@ -34,3 +35,17 @@ package rruntime
 //@     assume_result [wiring-kept] adapter.depDB != nil && adapter.watchFunc != nil
 //@   at watchFunc #1
 //@     assume_result [wiring-kept] adapter.depDB != nil && adapter.watchFunc != nil
+//@
+// C17: a rejected registration has no effect on the dependency database. dbWrites is the ghost
+// counter of accepted database changes (pkg/controller/runtime/internal/dependency).
+//@ func NewAdapter
+//@   props C17
+//@   requires [wired] ctrl != nil && adapterOptions.DepDB != nil && adapterOptions.State != nil && adapterOptions.RegisterWatch != nil
+//@   modifies dbWrites
+//@   ensures [rejected-registration-has-no-effect] result1 != nil ==> dbWrites == old(dbWrites)
+//@   loop #1
+//@     invariant [outputs-so-far] dbWrites == old(dbWrites) + rangeindex + 1 && adapter != nil && adapter.depDB != nil && adapter.watchFunc != nil && adapter.ctrl != nil
+//@
+//@ func (*Adapter).triggerReconcile
+//@   trusted
+//@   requires adapter != nil
